@@ -4,6 +4,7 @@ valid operation, and the result stays within the capacity.
 -/
 import TetlProofs.C01.Members3
 import TetlProofs.C01.Alias
+import TetlProofs.C01.RvArg
 namespace Tetl.C01
 open Tetl
 
@@ -40,6 +41,8 @@ def unarySv : Op → Bool
   | .unchecked .. => false
   | .tryPushA .. => false
   | .uncheckedA .. => false
+  | .tryPushMv .. => false
+  | .uncheckedMv .. => false
   | op => (isBinary op).isNone
 
 theorem step1_refines {cap : Nat} (kind : Kind) (op : Op) (d : V) (hc : cap < 2 ^ 64) (hcap : d.length ≤ cap)
@@ -147,6 +150,18 @@ theorem step1_refines {cap : Nat} (kind : Kind) (op : Op) (d : V) (hc : cap < 2 
   | unchecked ov x => simp [unarySv] at hu
   | tryPushA ov i => simp [unarySv] at hu
   | uncheckedA ov i => simp [unarySv] at hu
+  | pushMv ov x =>
+    simp only [valid1, decide_eq_true_eq] at hv
+    refine ⟨?_, by simp [Spec.apply1]; omega⟩
+    simp only [step1, Spec.apply1]
+    split <;> simp [emplaceBackRv_eq x hc hv, pushBackRv_eq x hc hv]
+  | insertMv ov pos x =>
+    simp only [valid1, Bool.and_eq_true, decide_eq_true_eq] at hv
+    refine ⟨?_, by simp [Spec.apply1, insertAt_length d pos [x] hv.2]; omega⟩
+    simp only [step1, Spec.apply1]
+    split <;> simp [emplaceRvArg_eq d pos x hc hv.2 hv.1, insertRvArg_eq d pos x hc hv.2 hv.1]
+  | tryPushMv ov x => simp [unarySv] at hu
+  | uncheckedMv ov x => simp [unarySv] at hu
 
 /-- operations of `inplace_vector` on one object -/
 def unaryIpv : Op → Bool
@@ -154,6 +169,8 @@ def unaryIpv : Op → Bool
   | .unchecked .. => true
   | .tryPushA .. => true
   | .uncheckedA .. => true
+  | .tryPushMv .. => true
+  | .uncheckedMv .. => true
   | .pop => true
   | .clear => true
   | .dump => true
@@ -219,5 +236,18 @@ theorem step1Ipv_refines {cap : Nat} (op : Op) (d : V) (hc : cap < 2 ^ 64) (hcap
   | insertA ov pos i => simp [unaryIpv] at hu
   | insertFillA pos n i => simp [unaryIpv] at hu
   | resizeValA n i => simp [unaryIpv] at hu
+  | tryPushMv ov x =>
+    refine ⟨?_, ?_⟩
+    · simp only [step1Ipv, Spec.apply1, ipvTryRv_eq d x hc hcap, ok_bind]
+      split <;> rfl
+    · simp only [Spec.apply1]
+      split
+      · exact hcap
+      · simp; omega
+  | uncheckedMv ov x =>
+    simp only [valid1, decide_eq_true_eq] at hv
+    exact ⟨by simp [step1Ipv, Spec.apply1, ipvUncheckedRv_eq d x hc hv], by simp [Spec.apply1]; omega⟩
+  | pushMv ov x => simp [unaryIpv] at hu
+  | insertMv ov pos x => simp [unaryIpv] at hu
 
 end Tetl.C01
